@@ -114,3 +114,49 @@ Q2 = "batchie.scoring.gaussian_dbal.get_combination_at_sorted_index"
 w = contract(Q2, params=[("index", TInt), ("n", TInt), ("k", TInt)], returns=None)
 w.requires(lambda a: [a.k >= 0, a.n >= 0, a.index >= 0, a.index < C(a.n, a.k)])
 w.ensures("unrank", lambda a, ret, st: _post(a, ret.seq, st))
+
+
+# ---- the DBAL call site: a REGION of dbal_fast_gauss_scoring_vectorized (shape unpacking .. the draw of the combination indices)
+import ast as _ast
+from pyvc.lib.np_core import TShaped
+from pyvc.lib.rng import TGenerator
+from pyvc.lib.arrays import Arr
+
+DB = "batchie.scoring.gaussian_dbal.dbal_fast_gauss_scoring_vectorized"
+
+
+def _assigns(names):
+    """top-level statement that assigns exactly these names (directly, or in every branch of an if/else)"""
+    def direct(st):
+        if not isinstance(st, _ast.Assign) or len(st.targets) != 1:
+            return False
+        t = st.targets[0]
+        got = [t.id] if isinstance(t, _ast.Name) else [e.id for e in t.elts if isinstance(e, _ast.Name)] if isinstance(t, _ast.Tuple) else []
+        return got == names
+
+    def f(st):
+        return direct(st) or (isinstance(st, (_ast.If, _ast.With, _ast.Try)) and any(direct(x) for x in _ast.walk(st)))
+    return f
+
+
+cs = contract(DB + "@draw", params=[("predictions", TShaped(3)), ("max_combos", TInt), ("rng", TGenerator())])
+cs.region = (_assigns(["n_plates", "n_thetas", "max_experiments_per_plate"]), _assigns(["unpacked_indices"]))
+cs.requires(lambda a: [a.max_combos >= 0])
+cs.raises("ValueError", lambda a: C(a.predictions.shape[1], 3) == 0)
+cs.use(lambda a: [C_nonneg(a.predictions.shape[1], 3)])
+
+
+def _cs_post(a, ret, st):
+    u = st._cur_frame.locals.get("unpacked_indices")
+    n = a.predictions.shape[1]
+    if not isinstance(u, Arr) or u.ndim != 1:
+        return [("indices_are_a_vector", z3.BoolVal(False))]
+    k, k2 = z3.Ints("k!cs k2!cs")
+    N = C(n, 3)
+    return [("one_index_per_budgeted_triple", u.shape[0] == z3.If(N < a.max_combos, N, a.max_combos)),
+            ("indices_in_range", z3.ForAll([k], z3.Implies(z3.And(k >= 0, k < u.shape[0]), z3.And(z3.Select(u.data, k) >= 0, z3.Select(u.data, k) < N)), patterns=[z3.Select(u.data, k)])),
+            ("indices_pairwise_distinct", z3.ForAll([k, k2], z3.Implies(z3.And(k >= 0, k < k2, k2 < u.shape[0]), z3.Select(u.data, k) != z3.Select(u.data, k2)),
+                                                    patterns=[z3.MultiPattern(z3.Select(u.data, k), z3.Select(u.data, k2))]))]
+
+
+cs.ensures("draw", _cs_post)
